@@ -43,6 +43,10 @@ SCENARIOS = {
     'three': dict(scripts={'c1': [('activate', 'm1')], 'c2': [('activate', P1), ('deactivate', P1)],
                            'c3': [('activate', None), ('deactivate', None)]},
                   updaters=[[('m1', 'p1'), ('m2', 'p2')]]),
+    'par_stays': dict(scripts={'c1': [('activate', P1)], 'c2': [('activate', 'm2:_p2')]},
+                      updaters=[[('m1', 'p1'), ('m2', 'p2'), ('m1', 'p1')], [('m1', 'p2')]]),
+    'mod_and_par_stay': dict(scripts={'c1': [('activate', 'm1'), ('activate', 'm2:_p1')], 'c2': [('activate', P2)]},
+                             updaters=[[('m2', 'p1'), ('m1', 'p2'), ('m2', 'p1')]]),
     'two_scopes': dict(scripts={'c1': [('activate', None), ('activate', P1), ('deactivate', None)]},
                        updaters=[[('m1', 'p1'), ('m1', 'p1')]]),
 }
